@@ -8,6 +8,7 @@ variable {S : Sem}
 def stopOf : Eff S → Option (VmOut S)
   | .stopNext w => some (.next w)
   | .stopExit w => some (.exit w)
+  | .stopRet v w => some (.ret v w)
   | _ => none
 
 /-- the VM, started in `st`, stops with `next` / `exit` outcome `o` -/
@@ -50,6 +51,31 @@ theorem MovesHalt.embed {mid : Code} {i : Nat} {s : List S.V} {w : S.W} {o : VmO
   have := h C (pc + csize pre) hc.mid
   simpa [Nat.add_assoc] using this
 
+/-- the VM gets to a `Return` with `v` on top of the otherwise unchanged stack `s` (or to a `ReturnNull` with stack `s`) -/
+def MovesRet (S : Sem) (c : Code) (i : Nat) (s : List S.V) (w : S.W) (v : S.V) (w' : S.W) : Prop :=
+  ∀ C pc, CodeAt C pc c → ∃ st', Reach S C ⟨pc + i, s, w⟩ st' ∧ st'.w = w' ∧
+    ((fetch C st'.pc = some .ret ∧ st'.stk = v :: s) ∨ (fetch C st'.pc = some .retNull ∧ st'.stk = s ∧ v = S.nullV))
+
+theorem MovesRet.embed {mid : Code} {i : Nat} {s : List S.V} {w : S.W} {v : S.V} {w' : S.W} (pre post : Code)
+    (h : MovesRet S mid i s w v w') : MovesRet S (pre ++ mid ++ post) (csize pre + i) s w v w' := by
+  intro C pc hc
+  have := h C (pc + csize pre) hc.mid
+  simpa [Nat.add_assoc] using this
+
+theorem Moves.thenRet {c : Code} {i j : Nat} {s : List S.V} {w w1 : S.W} {v : S.V} {w' : S.W}
+    (h1 : Moves S c i s w j s w1) (h2 : MovesRet S c j s w1 v w') : MovesRet S c i s w v w' := by
+  intro C pc hc
+  obtain ⟨st', r, hw, hh⟩ := h2 C pc hc
+  exact ⟨st', (h1 C pc hc).trans r, hw, hh⟩
+
+theorem MovesRet.toHalt {c : Code} {i : Nat} {s : List S.V} {w : S.W} {v : S.V} {w' : S.W}
+    (h : MovesRet S c i s w v w') : MovesHalt S c i s w (.ret v w') := by
+  intro C pc hc
+  obtain ⟨st', r, hw, hh⟩ := h C pc hc
+  rcases hh with ⟨hf, hs⟩ | ⟨hf, hs, hv⟩
+  · exact ⟨st', .ret, .stopRet v st'.w, r, hf, by rw [hs]; rfl, by simp [stopOf, hw]⟩
+  · exact ⟨st', .retNull, .stopRet S.nullV st'.w, r, hf, rfl, by simp [stopOf, hw, hv]⟩
+
 theorem Moves.ofFrag {c : Code} {s s' : List S.V} {w w' : S.W} (h : Frag S c s w s' w') : Moves S c 0 s w (csize c) s' w' :=
   fun C pc hc => by simpa using h C pc hc
 
@@ -80,31 +106,32 @@ theorem MovesHalt.step {pre post : Code} {i : Instr} {e : Eff S} {o : VmOut S} {
 
 /-- where the VM must get to for each outcome of a statement: the given offsets of `c` for normal / break / continue,
 or a halt with the `next` / `exit` outcome; the stack is unchanged -/
-def OutAt (S : Sem) (c : Code) (i tn tb tc : Nat) (stk : List S.V) (w : S.W) : Out S.W → Prop
+def OutAt (S : Sem) (c : Code) (i tn tb tc : Nat) (stk : List S.V) (w : S.W) : Out S.V S.W → Prop
   | .normal w' => Moves S c i stk w tn stk w'
   | .brk w' => Moves S c i stk w tb stk w'
   | .cont w' => Moves S c i stk w tc stk w'
   | .next w' => MovesHalt S c i stk w (.next w')
   | .exit w' => MovesHalt S c i stk w (.exit w')
+  | .ret v w' => MovesRet S c i stk w v w'
 
-theorem OutAt.embed {mid : Code} {i tn tb tc : Nat} {stk : List S.V} {w : S.W} {o : Out S.W} (pre post : Code)
+theorem OutAt.embed {mid : Code} {i tn tb tc : Nat} {stk : List S.V} {w : S.W} {o : Out S.V S.W} (pre post : Code)
     (h : OutAt S mid i tn tb tc stk w o) :
     OutAt S (pre ++ mid ++ post) (csize pre + i) (csize pre + tn) (csize pre + tb) (csize pre + tc) stk w o := by
-  cases o <;> first | exact Moves.embed pre post h | exact MovesHalt.embed pre post h
+  cases o <;> first | exact Moves.embed pre post h | exact MovesHalt.embed pre post h | exact MovesRet.embed pre post h
 
-theorem OutAt.prepend {c : Code} {i j tn tb tc : Nat} {stk : List S.V} {w w1 : S.W} {o : Out S.W}
+theorem OutAt.prepend {c : Code} {i j tn tb tc : Nat} {stk : List S.V} {w w1 : S.W} {o : Out S.V S.W}
     (h1 : Moves S c i stk w j stk w1) (h2 : OutAt S c j tn tb tc stk w1 o) : OutAt S c i tn tb tc stk w o := by
-  cases o <;> first | exact Moves.trans h1 h2 | exact Moves.thenHalt h1 h2
+  cases o <;> first | exact Moves.trans h1 h2 | exact Moves.thenHalt h1 h2 | exact Moves.thenRet h1 h2
 
-theorem OutAt.cast {c : Code} {i i' tn tb tc tn' tb' tc' : Nat} {stk : List S.V} {w : S.W} {o : Out S.W}
+theorem OutAt.cast {c : Code} {i i' tn tb tc tn' tb' tc' : Nat} {stk : List S.V} {w : S.W} {o : Out S.V S.W}
     (h : OutAt S c i tn tb tc stk w o) (hi : i = i') (hn : tn = tn') (hb : tb = tb') (hc : tc = tc') :
     OutAt S c i' tn' tb' tc' stk w o := by subst hi hn hb hc; exact h
 
-theorem OutAt.code {c c' : Code} {i tn tb tc : Nat} {stk : List S.V} {w : S.W} {o : Out S.W}
+theorem OutAt.code {c c' : Code} {i tn tb tc : Nat} {stk : List S.V} {w : S.W} {o : Out S.V S.W}
     (h : OutAt S c i tn tb tc stk w o) (hc : c = c') : OutAt S c' i tn tb tc stk w o := by subst hc; exact h
 
 /-- the normal target is irrelevant for an outcome that is not normal -/
-theorem OutAt.notNormal {c : Code} {i tn tn' tb tc : Nat} {stk : List S.V} {w : S.W} {o : Out S.W}
+theorem OutAt.notNormal {c : Code} {i tn tn' tb tc : Nat} {stk : List S.V} {w : S.W} {o : Out S.V S.W}
     (h : OutAt S c i tn tb tc stk w o) (hn : ∀ w', o ≠ .normal w') : OutAt S c i tn' tb tc stk w o := by
   cases o with
   | normal w' => exact absurd rfl (hn w')
@@ -131,6 +158,7 @@ theorem OutAt.notNormal {c : Code} {i tn tn' tb tc : Nat} {stk : List S.V} {w : 
     intro bk ct
     cases c <;> simp [cStmt, stmtSize, ihp, iho, ihb] <;> omega
   | exit e => intro bk ct; cases e <;> simp [cStmt, stmtSize]
+  | ret e => intro bk ct; cases e <;> simp [cStmt, stmtSize, Instr.size]
   | _ => intro bk ct; simp_all [cStmt, stmtSize] <;> omega
 
 /-! ### from `Halts` to `run` -/
